@@ -459,7 +459,8 @@ def extract_wfs_cbin(
     np.savez(channels_fn, channels=chan_map)
     # clean up the cached bin file
     if file_to_unlink is not None:
-        file_to_unlink.with_suffix(".meta").unlink()
+        if scratch_dir is not None:  # only then is the meta data file a copy
+            file_to_unlink.with_suffix(".meta").unlink(missing_ok=True)
         file_to_unlink.unlink()
 
 
